@@ -4,15 +4,22 @@ spec/C17/Fresh.tla     R-spec: artefacts, their secret-bearing fields, Construct
                        property as guards (NoSharedSecret, NoNonceReuse); the same clauses as state invariants
  FreshMC.tla           MC  : Fresh driven by the ideal generator - invariants hold, every action fires
  FreshImpl.tla         I-spec: WHEN each kind draws (import / construction / export / constant) as built; TLC predicts the reuse
- FreshGen.tla          GEN : all histories of <= D constructions over the menu (kinds x how x user-supplied fields), each building a new
-                             object or configuring the object of a live artefact AGAIN (Reconfigure, kinds whose load_from_config is a
-                             method of the object), with restarts; -simulate for free interleavings of Construct / Reconfigure / Export / Restart
+ FreshGen.tla          GEN : all histories of <= D builds over the menu (kinds x how x user-supplied fields), each building new
+                             object(s) or configuring the object of a live artefact AGAIN (Reconfigure, kinds whose load_from_config is a
+                             method of the object), with restarts; -simulate for free interleavings of Construct / Reconfigure / Export / Restart;
+                             the OPTION LANE: for every entry point with option arguments (OTFAD context flags, IEE lock / key size / mode,
+                             BEE engine selection / composition, SB2 signed / SHA / time stamp, ...) histories that walk through ALL option
+                             combinations of Fresh!Opts, each built and exported twice (in one interpreter / across a restart)
  FreshTrace.tla        TV  : batch trace validation of id-canonicalised histories observed on the real code
 
 Kinds of artefacts (menu of Fresh.tla): SB2.0 / SB2.1 through the classes and through load_from_config, SB2.1 from a COMMAND FILE with keyblob
 definitions and keywrap / encrypt statements (SB21KW: BD text and YAML form; the filler of every wrapped OTFAD key blob is a secret-bearing
 field, read by decoding the exported file with the independent boot-ROM executor of C04 and unwrapping the keywrap loads with the key-blob
 loader of the C13 hardware model), encrypted MBI, OTFAD / IEE / BEE key blobs, HAB (configuration and legacy class), load_hex_string.
+
+A build can emit SEVERAL artefacts (Fresh!Parts: a BEE build for both engines writes two region headers): every part is an artefact of
+its own in the trace (one Construct event per part, one Export event per exported file) and the clauses of Fresh hold between the parts
+of one build exactly as between artefacts of different builds.
 
 Python only EXECUTES: every interpreter segment of a history runs in a fresh interpreter (harness/c17_child.py) in which
 spsdk.crypto.rng.token_bytes is wrapped before anything else of spsdk is imported; secrets are read from public attributes and
@@ -49,7 +56,20 @@ NARROW_MAX_ARTS = 8
 RECONF = {"MBI"}                     # Reconf of Fresh.tla (cross-checked against the histories TLC emits): the object can be configured again
 BUILDS = ("Construct", "Reconfigure")  # the steps of a history that build an artefact
 USER_FIELDS = [("sb_dek", 32), ("sb_mac", 32), ("sb_nonce", 16), ("mbi_key", 32), ("mbi_ctr_iv", 16), ("otfad_key", 16), ("otfad_ctr", 8),
-               ("iee_key1", 64), ("iee_key2", 64), ("bee_sw_key", 16), ("hab_dek", 32), ("hab_nonce", 13), ("habrt_dek", 16)]
+               ("iee_key1", 64), ("iee_key2", 64), ("bee_sw_key", 16), ("bee_sw_key2", 16), ("hab_dek", 32), ("hab_nonce", 13), ("habrt_dek", 16)]
+DFLT_MULTI = set()                   # menu items of the base menu whose build emits several artefacts (Fresh!Parts), as TLC emits them
+DFLT = {}                            # (kind, how) -> default option combination, Dflt of Fresh.tla as TLC prints it (set by run() / replay())
+
+
+def how_key(kind, how, opt):
+    """<how> of a finding key: the entry point, plus the option combination when it is not the default one of the entry point."""
+    opt = list(opt or [])
+    return how if opt == list(DFLT.get((kind, how), opt)) else f"{how}[{'+'.join(opt)}]"
+
+
+def first_part(s):
+    """the step starts a build (a further part of a build that emits several artefacts does not)"""
+    return s["op"] in BUILDS and s.get("part", 1) == 1
 
 
 def user_values():
@@ -191,7 +211,7 @@ def execute(item):
     seen_kind = {}
     hist = [dict(s) for s in hist]
     for s in hist:  # input image of the build: alternates per kind, so a history has builds with different and (from the third on) with identical inputs
-        if s["op"] in BUILDS:
+        if first_part(s):
             s["variant"] = seen_kind.get(s["kind"], 0) % 2
             seen_kind[s["kind"]] = seen_kind.get(s["kind"], 0) + 1
     for si, seg in enumerate(segments(hist)):
@@ -222,7 +242,7 @@ def execute(item):
             for ph, n, hx in rec["draws"]:
                 note(ph, n, hx)
             if st["op"] == "Construct":
-                kinds[st["art"]] = (st["kind"], st["how"], list(st["ex"]))
+                kinds[st["art"]] = (st["kind"], how_key(st["kind"], st["how"], st.get("opt")), list(st["ex"]))
             elif st["op"] == "Reconfigure":  # reported under its own <how>: the artefact of an object that was configured again
                 kinds[st["art"]] = (st["kind"], "reconfig", list(st["ex"]))
             kind, how, ex = kinds[st["art"]]
@@ -240,11 +260,12 @@ def execute(item):
                 if name not in ex:
                     info["phases"].append((kind, how, "+".join(ex), name, phase_class(expl[hx])))
             if st["op"] == "Construct":
-                evs.append({"ev": "Construct", "art": st["art"], "kind": kind, "how": how, "ex": ex, "f": f, "x": []})
+                evs.append({"ev": "Construct", "art": st["art"], "kind": kind, "how": st["how"], "ex": ex, "opt": list(st.get("opt", [])),
+                            "part": st.get("part", 1), "f": f, "x": []})
             elif st["op"] == "Reconfigure":
                 evs.append({"ev": "Reconfigure", "art": st["art"], "of": st["of"], "kind": kind, "ex": ex, "f": f, "x": []})
             else:
-                evs.append({"ev": "Export", "art": st["art"], "f": f, "skip": skip, "x": []})
+                evs.append({"ev": "Export", "art": st["art"], "f": f, "skip": skip, "seen": list(rec.get("seen", [])), "x": []})
     info["where"] = where
     info["wall"] = round(time.time() - t_start, 2)
     info["kinds"] = {str(k): v for k, v in kinds.items()}
@@ -282,7 +303,7 @@ def culprits(trace, upto):
     has, kinds = {}, {}
     for e in trace["ev"][:upto]:
         if e["ev"] == "Construct":
-            kinds[e["art"]] = (e["kind"], e["how"], e["ex"])
+            kinds[e["art"]] = (e["kind"], how_key(e["kind"], e["how"], e.get("opt")), e["ex"])
         if e["ev"] == "Reconfigure":
             kinds[e["art"]] = (e["kind"], "reconfig", e["ex"])
         if e["ev"] in ("Construct", "Reconfigure", "Export"):
@@ -290,7 +311,7 @@ def culprits(trace, upto):
     e = trace["ev"][upto]
     if e["ev"] not in ("Construct", "Reconfigure", "Export"):
         return None, []
-    kind, how, ex = ((e["kind"], e["how"], e["ex"]) if e["ev"] == "Construct" else (e["kind"], "reconfig", e["ex"]) if e["ev"] == "Reconfigure"
+    kind, how, ex = ((e["kind"], how_key(e["kind"], e["how"], e.get("opt")), e["ex"]) if e["ev"] == "Construct" else (e["kind"], "reconfig", e["ex"]) if e["ev"] == "Reconfigure"
                      else kinds.get(e["art"], (None, None, None)))
     if kind is None:
         return None, []
@@ -308,7 +329,7 @@ def apply_excuses(trace, excused):
     kinds = {}
     for e in trace["ev"]:
         if e["ev"] == "Construct":
-            kinds[e["art"]] = (e["kind"], e["how"])
+            kinds[e["art"]] = (e["kind"], how_key(e["kind"], e["how"], e.get("opt")))
         if e["ev"] == "Reconfigure":
             kinds[e["art"]] = (e["kind"], "reconfig")
         if e["ev"] in ("Construct", "Reconfigure", "Export") and e["art"] in kinds:
@@ -351,7 +372,7 @@ def decide(v, traces, infos, label):
                 what = (f"history {tid}: {evname} of artefact #{t['ev'][matched]['art']} ({kind} via {how}) carries a self-chosen `{name}` that artefact(s) "
                         f"{owners[:3]} {owner_desc} already carried; value first seen at {w.get('first')}, drawn: {w.get('drawn')}")
                 new = v.violation(key, what, {"history": infos[tid]["hist"], "trace": t, "failed_event": matched + 1, "field": name,
-                                              "value": w, "fake_rng": infos[tid].get("fake", "")})
+                                              "value": w, "fake_rng": infos[tid].get("fake", ""), "dflt": {f"{k}/{h}": list(o) for (k, h), o in DFLT.items()}})
                 if new:
                     all_known = False
                 else:
@@ -388,11 +409,13 @@ def T_import():
 
 
 def canary(v):
-    def con(a, kind, how, ex, f):
-        return {"ev": "Construct", "art": a, "kind": kind, "how": how, "ex": ex, "f": f, "x": []}
+    dflt = {("OTFAD", "ctor"): ["ade", "vld"]}   # the option combinations are written out here (cross-checked by TLC: an unknown one is rejected)
 
-    def exp(a, f, skip=()):
-        return {"ev": "Export", "art": a, "f": f, "skip": list(skip), "x": []}
+    def con(a, kind, how, ex, f, opt=None, part=1):
+        return {"ev": "Construct", "art": a, "kind": kind, "how": how, "ex": ex, "opt": dflt.get((kind, how), []) if opt is None else opt, "part": part, "f": f, "x": []}
+
+    def exp(a, f, skip=(), seen=None):
+        return {"ev": "Export", "art": a, "f": f, "skip": list(skip), "seen": (["ade", "vld"] if len(f) == 3 and "filler" in f else []) if seen is None else seen, "x": []}
 
     def rcf(a, of, kind, ex, f):
         return {"ev": "Reconfigure", "art": a, "of": of, "kind": kind, "ex": ex, "f": f, "x": []}
@@ -412,7 +435,18 @@ def canary(v):
             exp(11, {"dek": 21, "mac": 22, "nonce": 23, "hpad": 24, "filler1": 25, "filler2": 26}),
             con(12, "SB21KW", "config", ["dek", "mac", "nonce"], {"dek": 21, "mac": 22, "nonce": 23}),
             exp(12, {"dek": 21, "mac": 22, "nonce": 23, "hpad": 27, "filler1": 28, "filler2": 29}),
-            exp(12, {"dek": 21, "mac": 22, "nonce": 23, "hpad": 27}, skip=("filler1", "filler2"))]
+            exp(12, {"dek": 21, "mac": 22, "nonce": 23, "hpad": 27}, skip=("filler1", "filler2")),
+            # [25..28] ONE build that emits two artefacts (BEE, both engines, one user key): two Construct events, two exported files
+            con(13, "BEE", "config", ["sw_key"], {"sw_key": 30, "counter": 31, "kib_key": 32, "kib_iv": 33}, opt=["both", "same"], part=1),
+            con(14, "BEE", "config", ["sw_key"], {"sw_key": 30, "counter": 34, "kib_key": 35, "kib_iv": 36}, opt=["both", "same"], part=2),
+            exp(13, {"sw_key": 30, "counter": 31, "kib_key": 32, "kib_iv": 33}, seen=["slot0"]),
+            exp(14, {"sw_key": 30, "counter": 34, "kib_key": 35, "kib_iv": 36}, seen=["slot1"]),
+            # [29..30] an OTFAD key blob for a locked context (RO | ADE | VLD), nothing supplied
+            con(15, "OTFAD", "ctor", [], {"key": 37, "ctr": 38}, opt=["ro", "ade", "vld"]),
+            exp(15, {"key": 37, "ctr": 38, "filler": 39}, seen=["ro", "ade", "vld"]),
+            # [31..32] both engines with two user keys
+            con(16, "BEE", "config", ["sw_key"], {"sw_key": 30, "counter": 40, "kib_key": 41, "kib_iv": 42}, opt=["both", "diff"], part=1),
+            con(17, "BEE", "config", ["sw_key"], {"sw_key": 43, "counter": 44, "kib_key": 45, "kib_iv": 46}, opt=["both", "diff"], part=2)]
     cases = {"canary-good": good}
 
     def mutate(name, fn):
@@ -434,6 +468,18 @@ def canary(v):
     mutate("canary-bad-keywrap-filler-is-an-otfad-filler", lambda t: t[21]["f"].update({"filler1": 9}))  # the filler of a key blob built through the class
     mutate("canary-bad-keywrap-filler-left-out", lambda t: t[19]["f"].pop("filler2"))                # one keywrap load not looked at, not declared as skipped
     mutate("canary-bad-wide-field-skipped", lambda t: (t[24]["f"].pop("hpad"), t[24]["skip"].append("hpad")))  # only narrow fields may be left out
+    # builds that emit several artefacts: the parts are artefacts of their own
+    mutate("canary-bad-parts-share-kib-key", lambda t: t[26]["f"].update({"kib_key": 32}))          # the key info block drawn once per call, not once per header
+    mutate("canary-bad-parts-share-kib-iv-in-export", lambda t: t[28]["f"].update({"kib_iv": 33}))
+    mutate("canary-bad-parts-share-counter", lambda t: t[26]["f"].update({"counter": 31}))          # one user key, one counter: nonce reuse inside one build
+    mutate("canary-bad-parts-diff-keys-share-kib", lambda t: t[32]["f"].update({"kib_key": 41, "kib_iv": 42}))   # two user keys, one key info block
+    mutate("canary-bad-part-not-looked-at", lambda t: t.pop(26))                                   # an executor that looks at the first header only
+    mutate("canary-bad-part-without-build", lambda t: t.pop(25))
+    mutate("canary-bad-part-exported-to-wrong-file", lambda t: t[28].update({"seen": ["slot0"]}))
+    # options of the entry points
+    mutate("canary-bad-locked-context-shares-key", lambda t: t[29]["f"].update({"key": 1}))         # RO | ADE | VLD: the key of another key blob
+    mutate("canary-bad-option-outside-case-space", lambda t: t[29].update({"opt": ["ro", "vld"]}))  # a context that does not decrypt
+    mutate("canary-bad-option-did-not-reach-the-code", lambda t: t[30].update({"seen": ["ade", "vld"]}))
     traces = [{"id": k, "ev": e} for k, e in cases.items()]
     rej, _ = tv_checked(traces)
     want = set(cases) - {"canary-good"}
@@ -452,13 +498,17 @@ def canary_e2e(v, healthy):
     spec rejects it although the generator never repeated itself, SPSDK itself put one value into two artefacts - that is decided and
     reported like every other history (a violation of this run), never a machinery failure."""
     period = 64
-    runs = [("e2e-const", homogeneous(("OTFAD", "ctor", []), 2), "const"), ("e2e-cycle", homogeneous(("BEE", "ctor", []), 40), f"cycle:{period}"),
-            ("e2e-cycle-short", homogeneous(("BEE", "ctor", []), 10), f"cycle:{period}"),
+    both = next(it for it in sorted(DFLT_MULTI) if it[:2] == ("BEE", "config"))   # a build of the base menu that emits two artefacts
+    runs = [("e2e-const", homogeneous(dflt_item("OTFAD", "ctor", []), 2), "const"), ("e2e-cycle", homogeneous(dflt_item("BEE", "ctor", []), 40), f"cycle:{period}"),
+            ("e2e-cycle-short", homogeneous(dflt_item("BEE", "ctor", []), 10), f"cycle:{period}"),
+            # ONE real BEE build for both engines with a constant generator: its two region headers carry the same counter / key info block
+            ("e2e-parts-const", homogeneous(both, 1), "const"),
+            # the same build with an honest generator of period 64 (8 draws): accepted - the two headers of one build are not rejected as such
+            ("e2e-parts-cycle-short", homogeneous(both, 2), f"cycle:{period}"),
             ("e2e-reconf-const", reconfigured("MBI", [["key"], ["key"]]), "const"),
             # a generator that answers every 4-byte request with the same value: two real SB2.1 files built from command files with keywrap
             # statements (BD text, YAML form) then carry the same key-blob filler and nothing else in common
-            ("e2e-kw-filler", homogeneous(("SB21KW", "bd", []), 1) + [{"op": "Construct", "art": 2, "kind": "SB21KW", "how": "config", "ex": []},
-                                                                    {"op": "Export", "art": 2}], "const4")]
+            ("e2e-kw-filler", homogeneous(dflt_item("SB21KW", "bd", []), 1) + build_steps(2, dflt_item("SB21KW", "config", [])) + [{"op": "Export", "art": 2}], "const4")]
     out = pmap(execute, runs, procs=len(runs), chunksize=1)
     for t, i in out:
         if t.get("failed"):
@@ -478,34 +528,57 @@ def canary_e2e(v, healthy):
         decide(v, [t], {hid: info}, "known-good history of the end-to-end canary (rejected by the spec)")
     kw_t = next(t for t, _i in out if t["id"] == "e2e-kw-filler")
     kw_ok = rej.get("e2e-kw-filler", (0,))[0] == 4 and {b[0] for b in culprits(kw_t, 4)[1]} == {"filler1", "filler2"}
-    ok = "e2e-const" in rej and "e2e-cycle" in rej and not short_rejected and rej.get("e2e-reconf-const", (0,))[0] == 3 and kw_ok
+    parts_t = next(t for t, _i in out if t["id"] == "e2e-parts-const")
+    parts_ok = (rej.get("e2e-parts-const", (0,))[0] == 2 and {b[0] for b in culprits(parts_t, 2)[1]} == {"counter", "kib_key", "kib_iv"}
+                and "e2e-parts-cycle-short" not in rej)
+    ok = "e2e-const" in rej and "e2e-cycle" in rej and not short_rejected and rej.get("e2e-reconf-const", (0,))[0] == 3 and kw_ok and parts_ok
     if not ok and healthy and not short_rejected:
         raise Machinery(f"end-to-end canary failed: rejected {rej} (constant and period-64 generators must be rejected, a real MBI object configured "
                         f"twice with a constant generator must be rejected at the Reconfigure event, two real SB2.1 files with keywrap statements and a "
-                        f"constant answer to 4-byte requests must be rejected at the second Export for the fillers only)")
+                        f"constant answer to 4-byte requests must be rejected at the second Export for the fillers only, one real BEE build for both engines "
+                        f"with a constant generator must be rejected at the Construct event of its second header for counter / kib_key / kib_iv and accepted with an honest generator)")
     v.extra["canary_e2e"] = ((f"real OTFAD key blobs with a constant token_bytes rejected at event {rej['e2e-const'][0] + 1}; 40 real BEE headers with a "
                               f"period-64 token_bytes rejected at event {rej['e2e-cycle'][0] + 1} of {rej['e2e-cycle'][1]}; 10 headers (40 draws < 64) accepted; "
                               f"a real MBI object configured twice with a constant token_bytes rejected at its Reconfigure event; two real SB2.1 files with "
-                              f"keywrap statements (BD text, YAML form) and a constant answer to 4-byte requests rejected at the second Export for filler1 / filler2 only")
+                              f"keywrap statements (BD text, YAML form) and a constant answer to 4-byte requests rejected at the second Export for filler1 / filler2 only; "
+                              f"ONE real BEE build for both engines with a constant token_bytes rejected at the Construct event of its second region header (counter, kib_key, kib_iv), "
+                              f"two such builds with an honest generator accepted")
                              if ok else
                              (f"known-good history (10 real BEE headers, {out[2][1].get('ndraws')} distinct draws) rejected by the spec: reported as a violation of this run"
                               if short_rejected and healthy else f"inconclusive on this tree (rejected: {sorted(rej)}); not enforced because histories were rejected"))
 
 
 # ------------------------------------------------------------------------------------------------ histories
+# a menu item = (kind, how, user-supplied fields, option combination, number of artefacts the build emits) - read from the histories TLC emits
+def item_of(s):
+    return (s["kind"], s["how"], tuple(s["ex"]), tuple(s.get("opt", ())), s.get("parts", 1))
+
+
+def build_steps(first_art, item):
+    """The Construct steps of ONE build of a menu item (one step per artefact it emits)."""
+    kind, how, ex, opt, parts = item
+    return [{"op": "Construct", "art": first_art + i, "kind": kind, "how": how, "ex": list(ex), "opt": list(opt), "part": i + 1, "parts": parts}
+            for i in range(parts)]
+
+
+def dflt_item(kind, how, ex):
+    return (kind, how, tuple(ex), tuple(DFLT.get((kind, how), ())), 1)
+
+
 def homogeneous(item, n, export=True):
-    kind, how, ex = item
-    h = []
-    for a in range(1, n + 1):
-        h.append({"op": "Construct", "art": a, "kind": kind, "how": how, "ex": list(ex)})
+    h, a = [], 1
+    for _ in range(n):
+        steps = build_steps(a, item)
+        h += steps
         if export:
-            h.append({"op": "Export", "art": a})
+            h += [{"op": "Export", "art": st["art"]} for st in steps]
+        a += len(steps)
     return h
 
 
 def reconfigured(kind, exs, how="config", export=lambda: True):
     """ONE object of a kind in RECONF: built with exs[0], then configured again with exs[1], exs[2], ..."""
-    h = [{"op": "Construct", "art": 1, "kind": kind, "how": how, "ex": list(exs[0])}]
+    h = build_steps(1, dflt_item(kind, how, exs[0]))
     for a, ex in enumerate(exs[1:], 2):
         if export():
             h.append({"op": "Export", "art": a - 1})
@@ -515,30 +588,35 @@ def reconfigured(kind, exs, how="config", export=lambda: True):
 
 
 def config_items(menu, kind):
-    return [list(e) for (k, h, e) in menu if k == kind and h == "config"]
+    return [list(it[2]) for it in menu if it[0] == kind and it[1] == "config"]
 
 
 def mixed(menu, r, n):
-    h, a, since, live = [], 0, 0, []
-    while a < n:
+    h, a, builds, since, live = [], 0, 0, 0, []
+    while builds < n:
         if since > 10 and r.random() < 0.04:
             h.append({"op": "Restart", "art": 0})
             since, live = 0, []
             continue
-        a += 1
+        builds += 1
         since += 1
         if live and r.random() < 0.15:  # the object of a live artefact is configured again
+            a += 1
             i = r.randrange(len(live))
             of, kind = live[i]
             h.append({"op": "Reconfigure", "art": a, "of": of, "kind": kind, "how": "config", "ex": r.choice(config_items(menu, kind))})
             live[i] = (a, kind)
+            new = [a]
         else:
-            kind, how, ex = r.choice(menu)
-            h.append({"op": "Construct", "art": a, "kind": kind, "how": how, "ex": list(ex)})
-            if kind in RECONF:
-                live.append((a, kind))
+            item = r.choice(menu)
+            steps = build_steps(a + 1, item)
+            h += steps
+            new = [st["art"] for st in steps]
+            a += len(steps)
+            if item[0] in RECONF:
+                live.append((a, item[0]))
         if r.random() < 0.8:
-            h.append({"op": "Export", "art": a})
+            h += [{"op": "Export", "art": x} for x in new]
     return h
 
 
@@ -546,7 +624,7 @@ def expected_histories(menu, reconf_kinds, depth):
     """Number of restart-free histories of 1..depth builds (a new object for any menu item, or a load_from_config item on a live object of
     a kind in reconf_kinds): what FreshGen must emit if no guard of Fresh blocks the ideal generator."""
     ks = sorted(reconf_kinds)
-    new = {k: sum(1 for (kk, _h, _e) in menu if kk == k) for k in ks}
+    new = {k: sum(1 for it in menu if it[0] == k) for k in ks}
     cfg = {k: len(config_items(menu, k)) for k in ks}
     other = len(menu) - sum(new.values())
 
@@ -570,6 +648,8 @@ def gen(depth, restarts, menu, mode="fused", simulate=None, length=0):
         raise Machinery(f"FreshGen violated {r.violated}")
     seen, out = set(), []
     for h in r.json_prints():
+        if not (isinstance(h, list) and h and isinstance(h[0], dict) and "op" in h[0]):
+            continue
         k = json.dumps(h, sort_keys=True)
         if k not in seen:  # TLC evaluates the printing action more than once in states without other successors
             seen.add(k)
@@ -577,14 +657,30 @@ def gen(depth, restarts, menu, mode="fused", simulate=None, length=0):
     return out, r
 
 
+def gen_opts(all_restarts):
+    """The option lane of FreshGen: the histories (the two-interpreter form for the base items only, or for all), and the options table of
+    Fresh.tla (default combination per entry point)."""
+    hs, r = gen(99, 1 if all_restarts else 0, "opts", mode="opts")
+    tab = [x for x in r.json_prints() if isinstance(x, list) and x and isinstance(x[0], dict) and "dflt" in x[0]]
+    if not tab:
+        raise Machinery("FreshGen (option lane) did not print the options table")
+    return hs, r, tab[0]
+
+
 def shape(h):
-    return tuple((s["kind"], s["how"], tuple(s["ex"])) if s["op"] == "Construct"
-                 else ("Reconfigure", s["art"], s["of"], tuple(s["ex"])) if s["op"] == "Reconfigure" else (s["op"], s["art"]) for s in h)
+    """The history as a tuple of steps; a build is ONE step (its menu item), whatever the number of artefacts it emits."""
+    return tuple(item_of(s) if s["op"] == "Construct"
+                 else ("Reconfigure", s["art"], s["of"], tuple(s["ex"])) if s["op"] == "Reconfigure" else (s["op"], s["art"])
+                 for s in h if not (s["op"] == "Construct" and s.get("part", 1) > 1))
+
+
+def is_item(sh):
+    return len(sh) == 5
 
 
 def n_constructs(h):
-    """builds of a history: new objects and objects configured again"""
-    return sum(1 for s in h if s["op"] in BUILDS)
+    """builds of a history: new objects (one build may emit several artefacts) and objects configured again"""
+    return sum(1 for s in h if first_part(s))
 
 
 def n_reconf(h):
@@ -609,9 +705,11 @@ def run(tier):
     child_env()
     # ---- everything that does not depend on anything else runs at the same time: a warm-up interpreter (byte-code cache outside /repo,
     #      SPSDK database cache in the scratch directory), the canary, model checking of R-spec and I-spec, the four GEN runs
-    warm_hist = [{"op": "Construct", "art": i + 1, "kind": k, "how": h, "ex": e} for i, (k, h, e) in enumerate(
-        [("MBI", "config", ["key"]), ("SB21", "config", []), ("SB21KW", "bd", []), ("SB21KW", "config", []), ("HAB", "config", []), ("BEE", "config", ["sw_key"]), ("OTFAD", "ctor", []),
-         ("IEE", "ctor", []), ("HABRT", "ctor", []), ("HEX", "call", [])])]
+    # (explicit option combinations: the options table of the spec is not known yet; each is checked against Fresh!Opts when the table arrives)
+    warm_items = [("MBI", "config", ["key"], []), ("SB21", "config", [], []), ("SB21KW", "bd", [], []), ("SB21KW", "config", [], []), ("HAB", "config", [], ["k256"]),
+                  ("BEE", "config", ["sw_key"], ["engine0"]), ("OTFAD", "ctor", [], ["ade", "vld"]), ("IEE", "ctor", [], ["unlock", "k256"]),
+                  ("HABRT", "ctor", [], ["nor"]), ("HEX", "call", [], ["n32"])]
+    warm_hist = [{"op": "Construct", "art": i + 1, "kind": k, "how": h, "ex": e, "opt": o, "part": 1, "parts": 1} for i, (k, h, e, o) in enumerate(warm_items)]
     bounds = {"MC_ARTS": 2, "MC_EXPORTS": 2, "MC_PROCS": 2, "MC_MENU": "base"} if quick else {"MC_ARTS": 3, "MC_EXPORTS": 2, "MC_PROCS": 2, "MC_MENU": "base"}
     ib = {"MC_ARTS": 2, "MC_EXPORTS": 2, "MC_PROCS": 2, "MC_MENU": "base", "IMPL_TABLE": "asbuilt"}
     # model checking of the R-spec runs beside everything else (thorough: 10^6 states) and is collected at the end
@@ -636,7 +734,10 @@ def run(tier):
         "full2": lambda: gen(2, 0 if quick else 1, "full"),
         "base3": lambda: gen(3, 0 if quick else 1, "base"),
         "sim": lambda: gen(99, 2, "full", mode="free", simulate=f"num={14 if quick else 160}", length=12 if quick else 16),
-    }, max_threads=10)
+        "opts": lambda: gen_opts(not quick),
+        # the clause for builds that emit several artefacts is not vacuous: an implementation-shaped table that draws once per CALL breaks it
+        "percall": lambda: tlc.run("C17", "FreshImpl", "FreshImplParts.cfg", env=dict(ib, IMPL_TABLE="percall"), timeout=600, heap="4g", workers=2),
+    }, max_threads=12)
     bad = [s for s in res["warm"]["steps"] if "error" in s]
     if bad:
         raise Machinery(f"warm-up interpreter: a public builder failed: {bad[0]['error']}\n{bad[0].get('tb')}")
@@ -649,20 +750,50 @@ def run(tier):
         raise Machinery(f"I-spec with the intended draw times violates {ii.violated}")
     v.add_mc(ii)
     say(f"[C17] I-spec as built -> {im.violated or 'no violation'} predicted, intended draw times -> invariants hold ({v.timer.s()}s)")
+    if res["percall"].violated != "PartsFresh":
+        raise Machinery(f"I-spec with a key info block drawn once per call: TLC reports {res['percall'].violated or 'no violation'}, PartsFresh must be violated")
     (base2, g1), (full2, g2), (base3, g3), (sim, _g4) = res["base2"], res["full2"], res["base3"], res["sim"]
-    for g in (g1, g2, g3):
+    sweeps, g5, opt_table = res["opts"]
+    for g in (g1, g2, g3, g5):
         v.add_mc(g)
-    menu_base = sorted({sh for h in base2 for sh in shape(h) if len(sh) == 3 and isinstance(sh[2], tuple)})
+    DFLT.clear()
+    DFLT.update({(row["kind"], row["how"]): tuple(row["dflt"]) for row in opt_table})
+    for k, h, _e, o in warm_items:
+        if DFLT.get((k, h)) != tuple(o):
+            raise Machinery(f"warm-up interpreter built {k}/{h} with the options {o}, Fresh.tla has the default {DFLT.get((k, h))}")
+    menu_base = sorted({sh for h in base2 for sh in shape(h) if is_item(sh)})
     nb = len(menu_base)
     # restart-free histories: new objects and objects configured again (expected_histories); with one restart: nb * nb more pairs of new objects
     want2 = expected_histories(menu_base, RECONF, 2) + nb * nb
     if len(base2) != want2 or sum(1 for h in base2 if not n_reconf(h)) != nb + 2 * nb * nb:
         raise Machinery(f"GEN: {len(base2)} histories of <= 2 builds over {nb} menu items (expected {want2}, {nb + 2 * nb * nb} of them without "
                         f"Reconfigure): a guard of Fresh blocks the ideal generator")
-    menu_full = sorted({sh for h in full2 for sh in shape(h) if len(sh) == 3 and isinstance(sh[2], tuple)})
-    for k, h, e in menu_full:
+    menu_full = sorted({sh for h in full2 for sh in shape(h) if is_item(sh)})
+    for k, h, e, _o, _n in menu_full:
         if k not in FIELDS or not set(e) <= set(FIELDS[k]):
             raise Machinery(f"menu item {k}/{h}/{e} of the spec is unknown to the harness")
+    # the option lane: per (kind, how, user-supplied fields) whose entry point has options a history that walks through every option combination
+    # twice in one interpreter, and (quick: base items only) one whose second pass runs in a new interpreter
+    sweep_keys = {(k, h, e) for (k, h, e, _o, _n) in menu_full if next(row["n"] for row in opt_table if (row["kind"], row["how"]) == (k, h)) > 1}
+    got = {}
+    for hh in sweeps:
+        items = [sh for sh in shape(hh) if is_item(sh)]
+        key = items[0][:3]
+        if any(it[:3] != key for it in items) or any(items.count(it) != 2 for it in items):
+            raise Machinery(f"GEN (option lane): a history does not build every option combination of {key} twice")
+        got.setdefault(key, []).append((n_restarts(hh), len({it[3] for it in items})))
+    base_keys = {it[:3] for it in menu_base}
+    for key in sweep_keys:
+        n = next(row["n"] for row in opt_table if (row["kind"], row["how"]) == key[:2])
+        if sorted(got.get(key, [])) != ([(0, n), (1, n)] if (key in base_keys or not quick) else [(0, n)]):
+            raise Machinery(f"GEN (option lane): {key} has {n} option combinations, the histories cover {got.get(key)}")
+    if set(got) != sweep_keys:
+        raise Machinery(f"GEN (option lane): histories for {sorted(set(got) ^ sweep_keys)}")
+    multi = sorted({it for it in menu_base if it[4] > 1})
+    if not multi:
+        raise Machinery("GEN: no build of the base menu emits more than one artefact (Fresh!Parts)")
+    DFLT_MULTI.clear()
+    DFLT_MULTI.update(multi)
     if quick and len(base3) != expected_histories(menu_base, RECONF, 3):
         raise Machinery(f"GEN: {len(base3)} histories of <= 3 builds (expected {expected_histories(menu_base, RECONF, 3)})")
     if quick and len(full2) != expected_histories(menu_full, RECONF, 2):
@@ -670,7 +801,9 @@ def run(tier):
     reconf_seen = {s["kind"] for h in full2 for s in h if s["op"] == "Reconfigure"}
     if reconf_seen != RECONF:
         raise Machinery(f"GEN: TLC configures objects of the kinds {sorted(reconf_seen)} again, the harness expects {sorted(RECONF)} (Reconf of Fresh.tla)")
-    say(f"[C17] GEN: menu {nb} base / {len(menu_full)} items; {len(base2)} histories <=2 (+restart), {len(base3)} histories <=3, {len(sim)} simulated; "
+    say(f"[C17] GEN: menu {nb} base / {len(menu_full)} items ({len(multi)} emit several artefacts); option lane: {len(sweeps)} histories over "
+        f"{sum(n for v_ in got.values() for r_, n in v_ if r_ == 0)} (entry point, user-supplied fields, option combination) triples; "
+        f"{len(base2)} histories <=2 (+restart), {len(base3)} histories <=3, {len(sim)} simulated; "
         f"{sum(1 for h in base3 if n_reconf(h))} + {sum(1 for h in full2 if n_reconf(h))} of them configure an object again ({v.timer.s()}s)")
 
     if not preload(res["warm"].get("modules", [])):
@@ -682,13 +815,13 @@ def run(tier):
         chosen.setdefault(json.dumps(h, sort_keys=True), (h, why))
 
     def cons(h):
-        return [s for s in h if s["op"] in BUILDS]
+        return [s for s in h if first_part(s)]
 
     def same_item(a, b):
         return (a["kind"], a["how"]) == (b["kind"], b["how"])
 
     def is_base(c):
-        return (c["kind"], c["how"], tuple(c["ex"])) in menu_base
+        return item_of(c) in menu_base
 
     for h in base3:
         if n_constructs(h) <= 2 and n_restarts(h) == 0:
@@ -735,6 +868,8 @@ def run(tier):
                 take(h, "full-menu<=2")
     for h in sim:
         take(h, "simulated")
+    for h in sweeps:  # every tier: all of them
+        take(h, "option-lane")
     # long histories: every menu item alone, 70..130 constructions (some defects need many draws), and mixed ones
     cost = {"SB21": 0.05, "SB21KW": 0.06, "MBI": 0.05, "HAB": 0.015}
     longs = []
@@ -748,9 +883,9 @@ def run(tier):
         longs.append((mixed(menu_full, r, r.randrange(70, 131)), "long-mixed"))
     # one object configured again and again, with and without explicit values, exported most of the time
     for kind in sorted(RECONF):
-        for first in ([(k, h, e) for (k, h, e) in menu_base if k == kind] if quick else [(k, h, e) for (k, h, e) in menu_full if k == kind]):
+        for first in ([it for it in menu_base if it[0] == kind] if quick else [it for it in menu_full if it[0] == kind]):
             cfgs = config_items(menu_full, kind)
-            base_cfg = [e for e in cfgs if tuple(e) in {tuple(x) for (k, h, x) in menu_base if k == kind and h == "config"}]
+            base_cfg = [e for e in cfgs if tuple(e) in {tuple(it[2]) for it in menu_base if it[0] == kind and it[1] == "config"}]
             exs = [list(first[2])] + [(r.choice(cfgs) if r.random() < 0.25 else r.choice(base_cfg)) for _ in range(r.randrange(24, 49) if quick else r.randrange(40, 81))]
             longs.append((reconfigured(kind, exs, how=first[1], export=lambda: r.random() < 0.8), "long-reconfigured"))
     longs.sort(key=lambda x: -sum(cost.get(s["kind"], 0.01) for s in x[0] if s["op"] in BUILDS))
@@ -811,7 +946,7 @@ def run(tier):
             obs.setdefault((kind, how, ex, name), set()).add(ph)
     conform, drift = 0, []
     for row in table:
-        exs = [e for (k, h, e) in menu_base if k == row["kind"] and h == row["how"]]
+        exs = [it[2] for it in menu_base if it[0] == row["kind"] and it[1] == row["how"]]
         key = (row["kind"], row["how"], "+".join(exs[0]) if exs else "", row["field"])
         if row["field"] in (exs[0] if exs else []) or key not in obs:
             continue
@@ -833,12 +968,27 @@ def run(tier):
         + ("all of <= 2 builds, all same-kind restart pairs, a seeded sample of the 3-build ones and of the restart pairs; with Reconfigure: all pairs over the full menu "
            "(explicit value first / second / both / never), all triples within the reconfigurable kinds, a seeded sample of the other triples"
            if quick else "all of <= 3 builds, all of <= 2 over the full menu incl. one restart, a seeded sample of 3 builds with a restart")
+        + f"; the OPTION LANE: every option combination of Fresh!Opts for every entry point with option arguments ({len(sweeps)} histories = "
+          f"{len(sweep_keys)} (kind, how, user-supplied fields), each building and exporting every combination twice in one interpreter, and "
+          f"{'for the base items ' if quick else ''}once more with the second pass in a new interpreter; "
+          f"OTFAD context flags RO / ADE / VLD, IEE lock x key size x mode, BEE composition / lock options / engine selection, SB2 signed / SHA flag / given time stamp, "
+          f"MBI hardware user-mode keys, HAB SecretKey_Length, legacy HAB IVT offset, load_hex_string sizes); builds that emit several artefacts (BEE for both engines: two region "
+          f"headers = two artefacts, {len(multi)} item(s) of the base menu, in every lane)"
         + "; TLC-simulated free interleavings; one homogeneous history of 70..130 constructions per base item, long mixed ones and one object configured again " + ("24..48" if quick else "40..80") + " times. "
         "Each interpreter segment runs in a fresh interpreter. distinct = distinct sequences of (kind, how, user-supplied set) / reconfigure / export / restart steps; "
         "every history constructs at least one artefact whose secrets are read (non-trivial)"
     )
     v.assumptions += [
         "a value counts as shared when two artefacts carry the same byte string in a secret-bearing field (attributes / exported bytes); equal values inside ONE artefact and two exports of the same object are not asserted",
+        "an artefact is one exported file with its own secret-bearing fields.  A build that emits several such files emits several artefacts: BeeNxp.load_from_config with "
+        "engine_selection 'both' builds two region headers (bee_ehdr0.bin / bee_ehdr1.bin), each from its own engine configuration (own user key, own regions), each with the "
+        "PRDB counter, KIB key and KIB IV SPSDK chooses - the same two artefacts two BeeRegionHeader() calls give through the classes.  The property speaks of 'every artifact' and "
+        "lists both entry points; 'built independently' is read as 'neither derived from the other' (parse, a second export, a copy), not as 'by two calls': the clauses are asserted "
+        "between the two headers of one call as between headers of two calls (with one KIB for both, whoever holds the user key of one engine can decrypt the region block of the other). "
+        "A header taken over from a file (bee_binary_cfg) is a parse and carries the secrets of the file by definition: not built here",
+        "option combinations (Fresh!Opts) cover the arguments with which the artefact still protects data: OTFAD contexts that do not decrypt (VLD or ADE clear), the IEE bypass mode and "
+        "the BEE AES-ECB mode (refused by SPSDK's own validate / encrypt_block) are outside the case space - what SPSDK puts into a key field nothing is encrypted with is not asserted; "
+        "test-only arguments (zero_fill, crc, padding) are the user's values when given",
         "OTFAD / IEE through load_from_config are outside the menu: every key and counter is mandatory in the configuration and the OTFAD filler is fixed to zero there (nothing is self-chosen)",
         f"the 4-byte OTFAD key-blob filler (key blobs built through the class, key blobs wrapped by the keywrap statements of an SB2.1 command file) is asserted only in "
         f"histories of <= {NARROW_MAX_ARTS} constructions (birthday bound 2^-32 per pair; wider fields everywhere)",
@@ -862,6 +1012,7 @@ def replay(path):
 
     import_spsdk()
     w = json.load(open(path))["witness"]
+    DFLT.update({tuple(k.split("/")): tuple(o) for k, o in w.get("dflt", {}).items()})
     t, info = execute(("replay", w["history"], w.get("fake_rng", "")))
     if t.get("failed"):
         raise Machinery(f"replay could not be executed: {info['errors'][0]['error']}")
